@@ -193,6 +193,31 @@ fn enumstr(args: &[String]) -> i32 {
                     const ALPHA: &[u8] = b"ABCDEFGHIJKLMNOPQRSTUVWXYZabcdefghijklmnopqrstuvwxyz0123456789_-";
                     let mut rng = crate::drive::Rng(0x9E37_79B9_7F4A_7C15 ^ ((a as u64) << 32) ^ c ^ (t.len() as u64) << 48);
                     let of_len: Vec<&String> = listed.iter().filter(|x| x.len() == a).collect();
+                    if c == 0 {
+                        // listed names with ONE character replaced by a multi-byte character that agrees
+                        // with it modulo 2^8 (and modulo 2^7), as is and with trailing characters dropped
+                        // so that the BYTE length is that of the listed name: a comparison through a
+                        // narrower type, or by characters against bytes, accepts these
+                        for name in of_len.iter() {
+                            let chars: Vec<char> = name.chars().collect();
+                            for p in 0..chars.len() {
+                                for k in (1u32..=16).chain([31, 32, 255, 256, 4351]) {
+                                    for step in [128u32, 256] {
+                                        let cp = chars[p] as u32 + step * k;
+                                        let ch = match char::from_u32(cp) { Some(ch) => ch, None => continue };
+                                        let mut v = chars.clone();
+                                        v[p] = ch;
+                                        let s1: String = v.iter().collect();
+                                        judge(&t, &s1, listed, &mut n);
+                                        let mut w = v.clone();
+                                        while w.len() > p + 1 && w.iter().map(|c| c.len_utf8()).sum::<usize>() > name.len() { w.pop(); }
+                                        let s2: String = w.iter().collect();
+                                        judge(&t, &s2, listed, &mut n);
+                                    }
+                                }
+                            }
+                        }
+                    }
                     let mut buf = vec![b'a'; a];
                     for i in 0..per_chunk {
                         if i % 4 == 0 && !of_len.is_empty() {
